@@ -19,7 +19,9 @@ only track what an observer of the public API, the metastore and the clock knows
   C09  no secret is closed twice or touched after close; with caching off nothing stays live;
        at the end of the case nothing is live
   C10  no heap slice that held plaintext key material is non-zero after the call
-  C20  immediately repeating a successful operation on the same session makes no metastore / KMS call
+  C20  immediately repeating a successful operation on the same session makes no metastore / KMS call;
+       a factory with an (unbounded) system-key cache unwraps one system key at most once per
+       revoke-check interval
 -/
 namespace AsherahVerif.EnvMon
 open AsherahVerif.Env
@@ -45,6 +47,7 @@ structure Mon where
   usedForPayload : List Nat := []
   fills : List ((Nat × String × Int) × String) := []   -- (cache owner, IK id, created) ↦ how the owner's cache last got it
   lastOp : Option (List String × Bool) := none     -- previous operation words, succeeded without faults?
+  unwraps : List ((Nat × Int) × Int) := []          -- (factory, SK created) ↦ time of its last KMS unwrap
   multi : Nat := 0
   aac : Nat := 0
 deriving Repr
@@ -106,6 +109,33 @@ def checkCalls (m : Mon) (cs : List String) : Mon × List String :=
             | none, none => (m, errs)     -- decided when one of them gets a level
     | _ => (m, errs)) (m, [])
 
+/-- C20: KMS unwraps per (factory, system key). The system key a `KD:ok` belongs to is the one
+named by the closest preceding `L:sk@c:1` / `LL:sk:c` call of the operation. -/
+def checkUnwraps (m : Mon) (f : Nat) (p : Policy) (cs : List String) (now : Int) : Mon × List String :=
+  let (m, errs, _) := cs.foldl (fun (acc : Mon × List String × Option Int) c =>
+    let (m, errs, cur) := acc
+    match c.splitOn ":" with
+    | ["L", k, "1"] => match k.splitOn "@" with
+      | ["sk", cr] => (m, errs, cr.toInt?)
+      | _ => (m, errs, cur)
+    | ["LL", "sk", cr] => (m, errs, cr.toInt?)
+    | ["KD", "ok"] =>
+      match cur with
+      | none => (m, errs, cur)
+      | some cr =>
+        let key := (f, cr)
+        let errs := match m.unwraps.lookup key with
+          | some t =>
+            if now < t + p.revokeInterval && p.cacheSK && p.skKind.isNone then
+              let stuck := keyTimestamp now p.precision ≤ cr + t0
+              errs ++ [s!"system key SK@{cr} unwrapped by the KMS again after {now - t} ns (< revoke-check interval) by the same factory" ++
+                (if stuck then " signature=latest-sk-invalid-within-its-stamp-window" else "")]
+            else errs
+          | none => errs
+        ({ m with unwraps := (key, now) :: m.unwraps.filter (fun e => e.1 != key) }, errs, cur)
+    | _ => (m, errs, cur)) (m, [], none)
+  (m, errs)
+
 def Mon.observe (m : Mon) (ws : List String) (fields : List (String × String)) (now : Int) :
     Mon × List (String × String) :=
   let rw := resWords fields
@@ -132,6 +162,12 @@ def Mon.observe (m : Mon) (ws : List String) (fields : List (String × String)) 
   let m := if noFault then m else { m with faulted := true }
   let (m, c03) := checkCalls m cs
   let fails0 := fails0 ++ c03.map fun e => ("C03", e)
+  let (m, c20) :=
+    if ws.head? == some "enc" || ws.head? == some "dec" then
+      let f := (m.sess.getD (((ws.getD 1 "").toNat?).getD 0) (0, 0)).1
+      if m.corrupted || m.faulted then (m, []) else checkUnwraps m f (m.facs.getD f default) cs now
+    else (m, [])
+  let fails0 := fails0 ++ c20.map fun e => ("C20", e)
   match ws.head? with
   | some "enc" =>
     let s := argN 1
